@@ -57,6 +57,9 @@ impl All2All for RecA2A {
 enum Input {
     Vote(MVote),
     Cert(CK, u64, Option<H32>, Vec<usize>, Vec<usize>),
+    /// a notarization certificate that carries the node's own signature: delivered only if the node under
+    /// test really cast that notarization vote (the harness holds every key, but must not sign for it)
+    NotarCertIfOwnVoted(u64, H32, Vec<usize>),
     FirstShred(u64),
     Block(Bid, Bid),
     Invalid(u64),
@@ -69,7 +72,21 @@ async fn quiesce() {
     tokio::time::sleep(Duration::from_nanos(1)).await;
 }
 
-async fn one_run(ctx: &mut Ctx, rng: &mut SRng) {
+struct Plan {
+    ep: Epoch,
+    stakes: Vec<u64>,
+    family: &'static str,
+    own: usize,
+    slots: u64,
+    windows: u64,
+    jitter_ms: u64,
+    slot_ms: u64,
+    sched: Vec<(u64, Input)>,
+    tag: &'static str,
+}
+
+/// Random plan: a world a < 20 % adversary could cause, delivered with jitter.
+fn world_plan(ctx: &mut Ctx, rng: &mut SRng) -> Option<Plan> {
     let n = rng.random_range(3..=9usize);
     let family = pick_family(rng, &["equal", "smallint", "exact10", "heavy", "whale60"]);
     let stakes = gen_stakes(rng, family, n);
@@ -82,29 +99,8 @@ async fn one_run(ctx: &mut Ctx, rng: &mut SRng) {
     // not offered either.
     let Some(&own) = w.byz.iter().next() else {
         ctx.count("worlds-without-untrusted-validator-skipped");
-        return;
+        return None;
     };
-    let log: Log = Default::default();
-    let out: Arc<Mutex<Vec<ConsensusMessage>>> = Default::default();
-    let start = tokio::time::Instant::now();
-    // wiring as in Alpenglow::new, with a tap on the Pool -> Votor channel
-    let (pool_tx, mut pool_rx0) = mpsc::channel::<PoolEvent>(1 << 14);
-    let (votor_pool_tx, votor_pool_rx) = mpsc::channel::<PoolEvent>(1 << 14);
-    let (bs_tx, bs_rx) = mpsc::channel::<BlockstoreEvent>(1 << 14);
-    let (repair_tx, mut repair_rx) = mpsc::channel(1 << 14);
-    let mut pool = PoolImpl::new(ep.own(own), pool_tx, repair_tx);
-    let a2a = Arc::new(RecA2A { log: log.clone(), out: out.clone(), start });
-    let mut votor = Votor::new(alpenglow::ValidatorIndex::new(own as u64), ep.vsks[own].clone(), votor_pool_rx, bs_rx, a2a);
-    let votor_task = tokio::spawn(async move { votor.voting_loop().await });
-    let flog = log.clone();
-    let fwd = tokio::spawn(async move {
-        while let Some(e) = pool_rx0.recv().await {
-            flog.lock().unwrap().push((seq(), start.elapsed(), Rec::ToVotorPool(e.clone())));
-            if votor_pool_tx.send(e).await.is_err() {
-                break;
-            }
-        }
-    });
     // schedule: world votes of the *other* validators, blocks as blockstore events, certificates
     let jitter_ms: u64 = *[50u64, 300, 1200, 4000].choose(rng).unwrap();
     let slot_ms: u64 = *[150u64, 400, 900].choose(rng).unwrap();
@@ -142,13 +138,140 @@ async fn one_run(ctx: &mut Ctx, rng: &mut SRng) {
             sched.push((at(rng, s, 300), Input::Cert(k, s, h, a, b)));
         }
     }
-    for _ in 0..rng.random_range(0..4) {
+    let nst = if ctx.prop == "C18" { rng.random_range(3..12) } else { rng.random_range(0..4) };
+    for _ in 0..nst {
         sched.push((rng.random_range(0..(w.slots + 4) * slot_ms), Input::Standstill));
     }
+    Some(Plan { ep, stakes, family, own, slots: w.slots, windows, jitter_ms, slot_ms, sched, tag: "random-world" })
+}
+
+/// Directed plan: an equivocating leader's two blocks X, Y in one slot with the stake sitting on the
+/// thresholds: the node under test u and a co-voter a notarize X (with the Byzantine z: exactly >= 60 %),
+/// c1, c2 notarize Y (>= 40 %, possibly only with z's second vote). Every order of "the 40 % for Y become
+/// visible" and "the notarization certificate for X arrives (as a certificate message, or as the last
+/// individual votes)" is produced; the slot is the first of the run or the first of the next window.
+fn rival_plan(rng: &mut SRng) -> Plan {
+    let z = rng.random_range(1..=19u64);
+    let c = rng.random_range(40 - z.min(39)..=40).max(2);
+    let ua = 100 - z - c;
+    let u = rng.random_range(1..ua);
+    let a = ua - u;
+    let c1 = rng.random_range(1..c);
+    let c2 = c - c1;
+    let mut roles: Vec<usize> = (0..5).collect();
+    roles.shuffle(rng);
+    let (iz, iu, ia, ic1, ic2) = (roles[0], roles[1], roles[2], roles[3], roles[4]);
+    let mut stakes = vec![0u64; 5];
+    stakes[iz] = z;
+    stakes[iu] = u;
+    stakes[ia] = a;
+    stakes[ic1] = c1;
+    stakes[ic2] = c2;
+    let ep: Epoch = make_epoch(rng, &stakes, "rival-thresholds");
+    let slot: u64 = *[1u64, 4, 5].choose(rng).unwrap();
+    let mut lbl = |rng: &mut SRng| {
+        let mut h = [0u8; 32];
+        rng.fill_bytes(&mut h);
+        h
+    };
+    let mut sched: Vec<(u64, Input)> = Vec::new();
+    let mut parent: Bid = crate::model::GENESIS;
+    let mut t = 0u64;
+    if slot >= 4 {
+        // window 0 is skipped by certificates that do not need the node's signature
+        for s in 1..=3u64 {
+            sched.push((t, Input::Cert(CK::Skip, s, None, vec![ia, ic1, ic2, iz], vec![])));
+            t += 1;
+        }
+    }
+    if slot == 5 {
+        // an ordinary block in the window's first slot, notarized by everybody else
+        let p = (4u64, lbl(rng));
+        sched.push((t, Input::FirstShred(4)));
+        sched.push((t + 1, Input::Block(p, parent)));
+        for (k, i) in [ia, ic1, ic2, iz].into_iter().enumerate() {
+            sched.push((t + 2 + k as u64, Input::Vote(MVote { signer: i, kind: VK::Notar, slot: 4, hash: Some(p.1) })));
+        }
+        parent = p;
+        t += 10;
+    }
+    let x = (slot, lbl(rng));
+    let y = (slot, lbl(rng));
+    sched.push((t, Input::FirstShred(slot)));
+    sched.push((t + 1, Input::Block(x, parent)));
+    sched.push((t + 2 + rng.random_range(0..30), Input::Block(y, parent)));
+    // the two competing arrivals, in either order
+    let y_first = rng.random_bool(0.6);
+    let (ty, tx) = if y_first { (t + 40, t + 80) } else { (t + 80, t + 40) };
+    let mut yv = vec![ic1, ic2];
+    if c < 40 || rng.random_bool(0.5) {
+        yv.push(iz);
+    }
+    yv.shuffle(rng);
+    for (k, i) in yv.into_iter().enumerate() {
+        sched.push((ty + k as u64, Input::Vote(MVote { signer: i, kind: VK::Notar, slot, hash: Some(y.1) })));
+    }
+    if rng.random_bool(0.7) {
+        let mut signers = vec![iz, iu, ia];
+        signers.sort_unstable();
+        sched.push((tx, Input::NotarCertIfOwnVoted(slot, x.1, signers)));
+    } else {
+        for (k, i) in [ia, iz].into_iter().enumerate() {
+            sched.push((tx + k as u64, Input::Vote(MVote { signer: i, kind: VK::Notar, slot, hash: Some(x.1) })));
+        }
+    }
+    // afterwards: what the others would send next
+    for (k, i) in [ic1, ic2].into_iter().enumerate() {
+        if rng.random_bool(0.7) {
+            sched.push((t + 120 + k as u64, Input::Vote(MVote { signer: i, kind: VK::NotarFallback, slot, hash: Some(x.1) })));
+        }
+    }
+    if rng.random_bool(0.5) {
+        sched.push((t + 130, Input::Vote(MVote { signer: ia, kind: VK::NotarFallback, slot, hash: Some(y.1) })));
+    }
+    if rng.random_bool(0.3) {
+        sched.push((t + rng.random_range(0..200), Input::Standstill));
+    }
+    Plan { ep, stakes, family: "rival-thresholds", own: iu, slots: slot + 3, windows: 2, jitter_ms: 0, slot_ms: 400, sched, tag: "directed-rival-blocks" }
+}
+
+async fn one_run(ctx: &mut Ctx, rng: &mut SRng, directed: bool) {
+    let plan = if directed {
+        rival_plan(rng)
+    } else {
+        match world_plan(ctx, rng) {
+            Some(p) => p,
+            None => return,
+        }
+    };
+    let Plan { ep, stakes, family, own, slots, windows, jitter_ms, slot_ms, mut sched, tag } = plan;
+    let n = stakes.len();
+    ctx.count(&format!("plan:{tag}"));
+    let log: Log = Default::default();
+    let out: Arc<Mutex<Vec<ConsensusMessage>>> = Default::default();
+    let start = tokio::time::Instant::now();
+    // wiring as in Alpenglow::new, with a tap on the Pool -> Votor channel
+    let (pool_tx, mut pool_rx0) = mpsc::channel::<PoolEvent>(1 << 14);
+    let (votor_pool_tx, votor_pool_rx) = mpsc::channel::<PoolEvent>(1 << 14);
+    let (bs_tx, bs_rx) = mpsc::channel::<BlockstoreEvent>(1 << 14);
+    let (repair_tx, mut repair_rx) = mpsc::channel(1 << 14);
+    let mut pool = PoolImpl::new(ep.own(own), pool_tx, repair_tx);
+    let a2a = Arc::new(RecA2A { log: log.clone(), out: out.clone(), start });
+    let mut votor = Votor::new(alpenglow::ValidatorIndex::new(own as u64), ep.vsks[own].clone(), votor_pool_rx, bs_rx, a2a);
+    let votor_task = tokio::spawn(async move { votor.voting_loop().await });
+    let flog = log.clone();
+    let fwd = tokio::spawn(async move {
+        while let Some(e) = pool_rx0.recv().await {
+            flog.lock().unwrap().push((seq(), start.elapsed(), Rec::ToVotorPool(e.clone())));
+            if votor_pool_tx.send(e).await.is_err() {
+                break;
+            }
+        }
+    });
     sched.sort_by_key(|x| x.0);
     let mut history: Vec<Value> = Vec::new();
     let mut standstill_bundles: Vec<(u64, Vec<Vec<u8>>)> = Vec::new();
-    let end_ms = (w.slots + 8) * slot_ms.max(400) + 4000;
+    let end_ms = (slots + 8) * slot_ms.max(400) + 4000;
     let mut idx = 0;
     let mut now_ms = 0u64;
     while now_ms <= end_ms {
@@ -172,6 +295,19 @@ async fn one_run(ctx: &mut Ctx, rng: &mut SRng) {
                         }
                     }
                     ctx.count("input:cert");
+                }
+                Input::NotarCertIfOwnVoted(sl, h, signers) => {
+                    let voted = log.lock().unwrap().iter().any(|(_, _, r)| matches!(r, Rec::Broadcast(ConsensusMessage::Vote(v)) if { let m = mvote_of(v); m.kind == VK::Notar && m.slot == *sl && m.hash == Some(*h) }));
+                    if voted {
+                        if let Some(c) = build_cert(&ep, CK::Notar, *sl, Some(h), signers, &[]).decode() {
+                            if let Ok(vc) = ValidatedCert::try_new(c, &ep.info) {
+                                let _ = pool.add_cert(vc).await;
+                            }
+                        }
+                        ctx.count("input:notar-cert-with-own-signature");
+                    } else {
+                        ctx.count("input:notar-cert-with-own-signature-withheld");
+                    }
                 }
                 Input::FirstShred(s) => {
                     log.lock().unwrap().push((seq(), start.elapsed(), Rec::ToVotorBlock(*s, None, "first-shred")));
@@ -258,7 +394,7 @@ async fn one_run(ctx: &mut Ctx, rng: &mut SRng) {
     quiesce().await;
     // ------------------------------------------------------------------ oracle
     let recs: Vec<(u64, Duration, Rec)> = log.lock().unwrap().clone();
-    let cfgj = json!({"n": n, "stakes": stakes, "family": family, "own": own, "windows": windows, "jitter_ms": jitter_ms, "slot_ms": slot_ms});
+    let cfgj = json!({"n": n, "stakes": stakes, "family": family, "own": own, "windows": windows, "jitter_ms": jitter_ms, "slot_ms": slot_ms, "plan": tag});
     let wit = |e: Value| json!({"config": cfgj, "inputs": history, "detail": e});
     let panics = take_panics();
     if votor_task.is_finished() || panics.iter().any(|p| p.in_repo()) {
@@ -399,12 +535,29 @@ async fn one_run(ctx: &mut Ctx, rng: &mut SRng) {
     fwd.abort();
 }
 
+/// The Votor + Pool harness alone; the C18 check uses it for its clause "the voting component forwards the
+/// standstill bundle whatever its own pruning state" (violations of other properties' clauses are dropped
+/// by `Ctx::violation`).
+pub fn run_votor(ctx: &mut Ctx, runs_q: u64, runs_t: u64) -> Result<(), String> {
+    let rt = tokio::runtime::Builder::new_current_thread().enable_all().start_paused(true).build().map_err(|e| e.to_string())?;
+    let mut rng = ctx.rng("votor");
+    let runs = ctx.iters(runs_q, runs_t);
+    for i in 0..runs {
+        rt.block_on(tokio::task::unconstrained(one_run(ctx, &mut rng, i % 4 == 3)));
+        if ctx.violations.len() > 30 {
+            break;
+        }
+    }
+    Ok(())
+}
+
 pub fn run(ctx: &mut Ctx) -> Result<(), String> {
     let rt = tokio::runtime::Builder::new_current_thread().enable_all().start_paused(true).build().map_err(|e| e.to_string())?;
     let mut rng = ctx.rng("votor");
     let runs = ctx.iters(400, 24_000);
-    for _ in 0..runs {
-        rt.block_on(tokio::task::unconstrained(one_run(ctx, &mut rng)));
+    for i in 0..runs {
+        // every fourth run is the directed rival-blocks script
+        rt.block_on(tokio::task::unconstrained(one_run(ctx, &mut rng, i % 4 == 3)));
         if ctx.violations.len() > 30 {
             break;
         }
